@@ -360,6 +360,53 @@ def _verdict(r):
     return 'discharged' if r == z3.unsat else ('failed' if r == z3.sat else 'unknown')
 
 
+_GENERIC = None
+
+
+def _symbols(e, cache):
+    """uninterpreted constants / functions occurring in e (by name), without the generic datatype vocabulary"""
+    k = e.get_id()
+    if k in cache:
+        return cache[k]
+    out = set()
+    stack = [e]
+    seen = set()
+    while stack:
+        x = stack.pop()
+        i = x.get_id()
+        if i in seen:
+            continue
+        seen.add(i)
+        if z3.is_quantifier(x):
+            stack.append(x.body())
+        elif z3.is_app(x):
+            d = x.decl()
+            if d.kind() == z3.Z3_OP_UNINTERPRETED:
+                out.add(d.name())
+            stack.extend(x.children())
+    cache[k] = out
+    return out
+
+
+def _cone_of_influence(goal, assumptions, rounds):
+    cache = {}
+    syms = set(_symbols(goal, cache))
+    asyms = [(a, _symbols(a, cache)) for a in assumptions]
+    keep = [False] * len(asyms)
+    for _ in range(rounds):
+        grew = False
+        new_syms = set()
+        for idx, (a, sy) in enumerate(asyms):
+            if not keep[idx] and (not sy or sy & syms):
+                keep[idx] = True
+                new_syms |= sy
+                grew = True
+        syms |= new_syms
+        if not grew:
+            break
+    return [a for (a, _), k in zip(asyms, keep) if k]
+
+
 def discharge(ctx, resolver, ob, timeout_ms, fuel=2):
     t0 = time.time()
     formulas = list(ob.assumptions) + [ob.goal]
@@ -388,6 +435,22 @@ def discharge(ctx, resolver, ob, timeout_ms, fuel=2):
         if r2 != z3.unknown:
             verdict = _verdict(r2)
             s = s2
+    if verdict == 'unknown':
+        # relevance filter: keep only the assumptions in the cone of influence of the goal (shared uninterpreted
+        # symbols, two rounds).  Dropping assumptions can only lose proofs, never create one: `unsat` here is sound;
+        # anything else is ignored (a model of the reduced problem means nothing).
+        for rounds in (2, 3):
+            keep = _cone_of_influence(ob.goal, list(ob.assumptions) + list(extra), rounds)
+            s3 = z3.Solver()
+            s3.set('timeout', timeout_ms)
+            s3.add(T.atoms_distinct())
+            for a in keep:
+                s3.add(a)
+            s3.add(z3.Not(ob.goal))
+            if s3.check() == z3.unsat:
+                verdict = 'discharged'
+                s = s3
+                break
     model = None
     if verdict == 'failed':
         try:
@@ -414,7 +477,7 @@ def verify_contract(con, instance=None, timeout_ms=30000, resolver=None, want_sm
         node, seg, path = resolver.find(con)
         res.sha = hashlib.sha256(seg.encode()).hexdigest()[:16]
         res.path, res.lineno = path, node.lineno
-        fname = con.qual + (('[%s]' % instance['name']) if instance else '')
+        fname = con.qual + (('#' + con.variant) if getattr(con, 'variant', '') else '') + (('[%s]' % instance['name']) if instance else '')
         ctx = Ctx(fname, con.props, module_consts=resolver.module_consts(con.module), timeout_ms=timeout_ms)
         types = dict(con.types)
         if instance:
@@ -460,6 +523,10 @@ def verify_contract(con, instance=None, timeout_ms=30000, resolver=None, want_sm
         reqs = parse_exprs(con.requires + (instance.get('requires', []) if instance else []))
         for r in reqs:
             st.pc.append(truthy(ex.ev(r, st)))
+        for a_src, a_ast in zip(con.assumes, parse_exprs(list(con.assumes))):
+            st.pc.append(truthy(ex.ev(a_ast, st)))
+            ctx.assumptions_used.add('ENTRY ASSUMPTION in %s (not required from callers): %s  [%s]'
+                                     % (fname, a_src, con.why_assumed))
         ctx.mode = 'code'
         old = st.copy()
         st.old = old
